@@ -163,6 +163,42 @@ def run(case):
         if other != kind:
             faults["wrong_kind"] += 1
             must_reject(blob, key, other, "decrypted as %s" % other, "wrong-kind")
+    # ---- one long-lived cipher object used for a seeded sequence of operations over 2 keys x 4 kinds (an
+    #      application keeps one MediaCipher around): every result is compared with the reference, so state carried
+    #      from one call into the next (caches keyed too coarsely, leftovers of a failed call) shows
+    sr = stream(case["seed"], "session")
+    key2 = sr.randbytes(32)
+    small = plain[:200]
+    mc2 = _S["MC"]()
+    for step in range(14):
+        k = key if sr.random() < 0.6 else key2
+        kd = sr.choice(KINDS)
+        if sr.random() < 0.4:
+            try:
+                got = bytes(_y_enc(mc2, kd, small, k))
+                if got != ref.encrypt(small, k, kd):
+                    v("C15/session/encrypt-differs", "step %d of a sequence on one cipher object: encrypt_%s differs from the "
+                      "reference (state carried over from an earlier call)" % (step, kd))
+            except Exception as e:  # noqa
+                v("C15/session/encrypt-raises", "step %d: %r" % (step, e))
+        else:
+            mk, mkd = (k, kd) if sr.random() < 0.5 else (sr.choice([key, key2]), sr.choice(KINDS))
+            b = ref.encrypt(small, mk, mkd)
+            try:
+                got = _y_dec(mc2, kd, b, k)
+                if (mk, mkd) != (k, kd):
+                    faults["wrong_kind" if mk == k else "wrong_key"] += 1
+                    v("C15/session/tamper-accepted/%s" % ("wrong-kind" if mk == k else "wrong-key"),
+                      "step %d of a sequence on one cipher object: a blob made for (%s) was decrypted as %s without error"
+                      % (step, mkd, kd))
+                elif bytes(got) != small:
+                    v("C15/session/wrong-plaintext", "step %d" % step)
+            except Exception as e:  # noqa
+                if (mk, mkd) == (k, kd):
+                    v("C15/session/valid-blob-rejected", "step %d of a sequence on one cipher object: a genuine %s blob was "
+                      "rejected: %r" % (step, kd, e))
+                else:
+                    faults["wrong_kind" if mk == k else "wrong_key"] += 1
     h = hashlib.sha256(("%s/%d/" % (kind, n)).encode() + key).hexdigest()[:16]
     return {"violations": viol, "nontrivial": True, "digest": h, "faults": faults, "probes": probes,
             "steps": sum(faults.values()), "vtime": 0.0}
